@@ -170,3 +170,56 @@ func init() {
 			New: "func (a *GenericObjectSetPhase) SetPhase(phase corev1alpha1.ObjectSetTemplatePhase) {\n\tif nil != a.Labels {\n\t} else {\n\t\ta.Labels = map[string]string{}\n\t}\n"},
 	)
 }
+
+// Round two: triaged sites that move because their function is merged into its caller (the entry of
+// a function that no longer exists is inherited by its pinned callers), and the `include` template
+// helper written as a method value instead of a closure.
+func init() {
+	const (
+		enq      = "internal/dynamiccache/enqueue_watching.go"
+		sprig    = "internal/transform/transformfiles_funcs.go"
+		rtmpl    = "internal/packages/internal/packagerender/template.go"
+		ctorCall = "\tif err := e.parseWatcherTypeGroupKind(scheme); err != nil {\n\t\t// This (passing a type that is not in the scheme) HAS\n\t\t// to be a programmer error and can't be recovered at runtime anyways.\n\t\tpanic(err)\n\t}\n\treturn e\n"
+		method   = "func (e *EnqueueWatchingObjects) parseWatcherTypeGroupKind(scheme *runtime.Scheme) error {\n\t// Get the kinds of the type\n\tkinds, _, err := scheme.ObjectKinds(e.WatcherType)\n\tif err != nil {\n\t\treturn err\n\t}\n\t// Expect only 1 kind.  If there is more than one kind this is probably an edge case such as ListOptions.\n\tif len(kinds) != 1 {\n\t\tpanic(fmt.Sprintf(\"Expected exactly 1 kind for WatcherType %T, but found %s kinds\", e.WatcherType, kinds))\n\t}\n\t// Cache the Group and Kind for the WatcherType\n\te.groupKind = schema.GroupKind{Group: kinds[0].Group, Kind: kinds[0].Kind}\n\treturn nil\n}\n"
+		merged   = "\tkinds, _, err := scheme.ObjectKinds(watcherType)\n\tif err != nil {\n\t\tpanic(err)\n\t}\n\tif len(kinds) != 1 {\n\t\tpanic(fmt.Sprintf(\"Expected exactly 1 kind for WatcherType %T, but found %s kinds\", watcherType, kinds))\n\t}\n\te.groupKind = schema.GroupKind{Group: kinds[0].Group, Kind: kinds[0].Kind}\n\treturn e\n"
+
+		includeClosure = "\tincludedNames := map[string]int{}\n\t// Include function executes a template with given data and returns the result as string.\n\t// Use this helper function if you need to modify the resulting output via e.g. | indent.\n\t// Example:\n\t// {{- define \"test-helper\" -}}{{.}}{{- end -}}{{- include \"test-helper\" . | upper -}}\n\tallowedFuncs[\"include\"] = func(name string, data any) (string, error) {\n\t\tvar buf strings.Builder\n\t\tif v, ok := includedNames[name]; ok {\n\t\t\tif v > recursionDepth {\n\t\t\t\treturn \"\", fmt.Errorf(\"including template with name %s: %w\", name, ErrExceededIncludeRecursion)\n\t\t\t}\n\t\t\tincludedNames[name]++\n\t\t} else {\n\t\t\tincludedNames[name] = 1\n\t\t}\n\t\terr := t.ExecuteTemplate(&buf, name, data)\n\t\tincludedNames[name]--\n\t\treturn buf.String(), err\n\t}\n"
+		includeValue   = "\tinc := &includer{tmpl: t, includedNames: map[string]int{}}\n\tallowedFuncs[\"include\"] = inc.include\n"
+		b64Anchor      = "func base64decodeMap(data map[string]any) (\n"
+		includerHead   = "type includer struct {\n\ttmpl          *template.Template\n\tincludedNames map[string]int\n}\n\nfunc (i *includer) include(name string, data any) (string, error) {\n\tvar buf strings.Builder\n\tif v, ok := i.includedNames[name]; ok {\n"
+		includerGuard  = "\t\tif v > recursionDepth {\n\t\t\treturn \"\", fmt.Errorf(\"including template with name %s: %w\", name, ErrExceededIncludeRecursion)\n\t\t}\n"
+		includerNoTest = "\t\tif v > recursionDepth {\n\t\t\t_ = fmt.Errorf(\"including template with name %s: %w\", name, ErrExceededIncludeRecursion)\n\t\t}\n"
+		includerTail   = "\t\ti.includedNames[name]++\n\t} else {\n\t\ti.includedNames[name] = 1\n\t}\n\terr := i.tmpl.ExecuteTemplate(&buf, name, data)\n\ti.includedNames[name]--\n\treturn buf.String(), err\n}\n\n"
+
+		novalueCall = "\tworkaroundnovalue(actualCtx)\n\treturn actualCtx, nil\n}\n\nfunc workaroundnovalue(actualCtx map[string]any) {\n"
+		novalueTail = "\tif metadata[\"labels\"] == nil {\n\t\tmetadata[\"labels\"] = map[string]string{}\n\t}\n}\n"
+	)
+	addMutants(
+		Mutant{Prop: "C19", Name: "r4-benign-panicking-method-merged-into-constructor", File: enq, Benign: true,
+			Why: "parseWatcherTypeGroupKind no longer exists; its triaged panic now sits in its only caller",
+			Old: ctorCall, New: merged,
+			More: []Edit{{File: enq, Old: method, New: ""}}},
+		Mutant{Prop: "C19", Name: "r4-merged-constructor-gains-a-panic", File: enq,
+			Why: "merging the method into the constructor must not hide a new panic site",
+			Old: ctorCall, New: "\tif watcherRefGetter == nil {\n\t\tpanic(\"no getter\")\n\t}\n" + merged,
+			More:   []Edit{{File: enq, Old: method, New: ""}},
+			Expect: []string{"C19.R4@internal/dynamiccache.NewEnqueueWatchingObjects#panic"}},
+		Mutant{Prop: "C19", Name: "r5-benign-include-as-method-value", File: sprig, Benign: true, OwnOnly: true,
+			Why: "the shape of benign/H7-4. OwnOnly: C10.R3 (durable-state table, not a C19 rule) reports the depth counter, now a map in a receiver field, as state that outlives the reconcile — a false alarm of that rule, reproducible with benign/H7-4",
+			Old: includeClosure, New: includeValue,
+			More: []Edit{{File: sprig, Old: b64Anchor, New: includerHead + includerGuard + includerTail + b64Anchor}}},
+		Mutant{Prop: "C19", Name: "r5-include-method-value-depth-test-dropped", File: sprig,
+			Old: includeClosure, New: includeValue,
+			More:   []Edit{{File: sprig, Old: b64Anchor, New: includerHead + includerNoTest + includerTail + b64Anchor}},
+			Expect: []string{"C19.R5@(*internal/transform.includer).include#template-reentry"}},
+		Mutant{Prop: "C19", Name: "r1-benign-novalue-workaround-merged-into-caller", File: rtmpl, Benign: true,
+			Why: "workaroundnovalue no longer exists; its two triaged assertions now sit in templateContext",
+			Old: novalueCall, New: "",
+			More: []Edit{{File: rtmpl, Old: novalueTail, New: "\tif metadata[\"labels\"] == nil {\n\t\tmetadata[\"labels\"] = map[string]string{}\n\t}\n\treturn actualCtx, nil\n}\n"}}},
+		Mutant{Prop: "C19", Name: "r1-merged-novalue-workaround-gains-an-assertion", File: rtmpl,
+			Why: "a third unchecked assertion on the JSON round trip (.config is user input and need not be an object)",
+			Old: novalueCall, New: "\t_ = actualCtx[\"config\"].(map[string]any)\n",
+			More:   []Edit{{File: rtmpl, Old: novalueTail, New: "\tif metadata[\"labels\"] == nil {\n\t\tmetadata[\"labels\"] = map[string]string{}\n\t}\n\treturn actualCtx, nil\n}\n"}},
+			Expect: []string{"C19.R1@internal/packages/internal/packagerender.templateContext#assert-"}},
+	)
+}
